@@ -172,10 +172,14 @@ CASES = [
                "Log10TPoly([a0, a1, a2])({'log10_temperature': lT}), ShiftedRTPoly([Tref, a0, a1, a2])({'temperature': T}), "
                "MassAction(TPoly([a0, a1]))({'temperature': T, 'A': a2}, reaction=rxn1), TPoly([a0])({'temperature': T}), "
                "TPoly([a0, 0, a2])({'temperature': T}), RTPoly([a0, 0.0, a2])({'temperature': T}), ShiftedTPoly([Tref, a0, 0, a2])({'temperature': T}), "
-               "TPoly([0, a1, 0, a3])({'temperature': T}))",
+               "TPoly([0, a1, 0, a3])({'temperature': T}), "
+               "TPoly([a0, a1], unique_keys=(k_ for k_ in ('p0', 'p1')))({'temperature': T, 'p1': a3}), "
+               "TPoly([a0, a1], unique_keys=iter(['p0', 'p1']))({'temperature': T, 'p0': a2}), "
+               "TPoly([a0, a1], unique_keys=['p0', 'p1'])({'temperature': T, 'p0': a2, 'p1': a3}))",
          assume=["T - Tref >= 1"],
          formula="(a0 + a1*T + a2*T**2 + a3*T**3, a0 + a1/T + a2/T**2, a0 + a1*(T - Tref) + a2*(T - Tref)**2, a0 + a1*lT + a2*lT**2, "
-                 "a0 + a1/(T - Tref) + a2/(T - Tref)**2, (a0 + a1*T)*a2, a0, a0 + a2*T**2, a0 + a2/T**2, a0 + a2*(T - Tref)**2, a1*T + a3*T**3)"),
+                 "a0 + a1/(T - Tref) + a2/(T - Tref)**2, (a0 + a1*T)*a2, a0, a0 + a2*T**2, a0 + a2/T**2, a0 + a2*(T - Tref)**2, a1*T + a3*T**3, "
+                 "a0 + a3*T, a2 + a1*T, a2 + a3*T)"),
 ]
 
 
@@ -408,7 +412,7 @@ sys.exit(replay_sympy(%(case)r, %(point)s))
 '''
 
 
-def _sympy_ns(case):
+def _sympy_ns(case, plain_symbols=False):
     import math
     import sympy as sp
 
@@ -416,19 +420,22 @@ def _sympy_ns(case):
     syms = {}
     for v, dom in case["vars"].items():
         lo, hi = dom
-        syms[v] = sp.Symbol(v, integer=True) if v.startswith("n_") else sp.Symbol(v, positive=True) if (lo is not None and lo > 0) else sp.Symbol(v, real=True)
+        if plain_symbols:
+            syms[v] = sp.Symbol(v)
+        else:
+            syms[v] = sp.Symbol(v, integer=True) if v.startswith("n_") else sp.Symbol(v, positive=True) if (lo is not None and lo > 0) else sp.Symbol(v, real=True)
         ns[v] = syms[v]
     exec(case["setup"], ns)
     return ns, syms
 
 
-def replay_sympy(casename, point):
+def replay_sympy(casename, point, plain_symbols=False):
     """the statement's 'evaluated symbolically and then substituted': plain expression with backend=sympy on symbols, numbers substituted
     afterwards, compared with the float evaluation of the defining formula"""
     import sympy as sp
 
     case = [c for c in CASES if c["name"] == casename][0]
-    ns, syms = _sympy_ns(case)
+    ns, syms = _sympy_ns(case, plain_symbols)
     pt = {k: float(Fraction(v)) for k, v in point.items() if k in case["vars"]}
     try:
         val = eval(case["plain"], ns)
@@ -451,6 +458,39 @@ def replay_sympy(casename, point):
             print("MISMATCH component %d: symbolic-then-substituted %r, formula %r" % (i, av, float(b)))
             bad = 1
     return bad
+
+
+SYMPY_EVAL_ONLY = ["arrhenius_equation", "ArrheniusParam", "eyring_equation", "EyringParam"]
+
+
+def task_sympy_eval(casename):
+    """the cases with float module constants (R, kB/h): evaluated with backend=sympy on PLAIN symbols (no positivity assumption, as a user would
+    create them); no exception may be raised and the substituted value agrees with the float formula at one point (concrete: the exact
+    identity is not provable because sympy rounds 1/R; the Z-engine case of the same name carries the identity)"""
+    import subprocess
+    import sys as _sys
+
+    case = [c for c in CASES if c["name"] == casename][0]
+    point = {k: str(Fraction(3 + 2 * i, 2 + i) + (300 if case["vars"][k][0] == 200 else 0)) for i, k in enumerate(case["vars"])}
+    src = ("import sys\nsys.path.insert(0, %r)\nsys.path.insert(0, %r)\nfrom vlib import env; env.setup()\nfrom checks.C16 import replay_sympy\n"
+           "sys.exit(replay_sympy(%r, %r, plain_symbols=True))\n" % (env.VERIF, env.REPO, casename, point))
+    r = subprocess.run([_sys.executable, "-c", src], capture_output=True, text=True, timeout=300, env=dict(__import__("os").environ, VERIF_REPO=env.REPO))
+    res = dict(engine="concrete", functions=case.get("targets", []), obligations=1, discharged=1 if r.returncode == 0 else 0, violations=[], queries=0, twin="n/a",
+               bounds="backend=sympy on plain symbols, value compared at one point (concrete sanity, not solver evidence)", sample={"case": casename})
+    if r.returncode == 1:
+        res["violations"].append(dict(key="sympy_eval:%s" % casename, desc="%s with backend=sympy on plain symbols: %s" % (casename, r.stdout[-300:]),
+                                      replay_src=REPLAY_SYMPY_PLAIN % dict(case=casename, point=repr(point))))
+    elif r.returncode != 0:
+        res["inconclusive"] = ["sympy evaluation could not be run: %s" % r.stderr[-300:]]
+    res["status"] = "violation" if res["violations"] else ("inconclusive" if res.get("inconclusive") else "discharged")
+    return res
+
+
+REPLAY_SYMPY_PLAIN = '''
+sys.path.insert(0, "/verif")
+from checks.C16 import replay_sympy
+sys.exit(replay_sympy(%(case)r, %(point)s, plain_symbols=True))
+'''
 
 
 def task_sympy(casename):
@@ -525,6 +565,7 @@ def tasks(tier, seed):
 
     ts = [dict(id="C16.%s" % c["name"], fn="task_case", kwargs=dict(casename=c["name"]), timeout=600) for c in CASES]
     ts += [dict(id="C16.sympy.%s" % n, fn="task_sympy", kwargs=dict(casename=n), timeout=600) for n in SYMPY_CASES]
+    ts += [dict(id="C16.sympy_eval.%s" % n, fn="task_sympy_eval", kwargs=dict(casename=n), timeout=600) for n in SYMPY_EVAL_ONLY]
     ts += [dict(id="C16.piecewise.%d" % n, fn="task_piecewise", kwargs=dict(npieces=n), timeout=300) for n in (2, 3)]
     ts.append(dict(id="C16.constants", fn="task_constants", kwargs={}, timeout=60))
     tl = [t for t in trees(1) if t[0] != "leaf"] + [t for t in trees(2) if t[0] != "leaf" and t not in trees(1)]
